@@ -271,6 +271,19 @@ def schedules(fam):
         out.append(S(fam, "lostlate", [opn("c1"), opn("c2"), sub("c1", "a"), sub("c2", "b"), conn("c1"), conn("c2"), cache("a"), cache("b"),
                                        reply("get", "a"), reply("get", "b"), {"op": "mqlost"}, {"op": "open", "c": "c3"}, {"op": "start"},
                                        opn("c4"), sub("c4", "a"), Q]))
+    if fam == "malformed":
+        # the boundary indexes of a collection: remove at its length, add one past it - discarded, the collection goes on
+        inj = lambda n, sh: {"op": "inject", "n": n, "shape": sh}
+        out.append(S(fam, "boundaryidx", [opn("c1"), sub("c1", "b"), Q, inj("b", "remove-len"), Q, inj("b", "add-len1"), Q,
+                                          ev("b", "add", a=0, val=P("7")), Q, inj("b", "remove-len"), inj("b", "add-len1"), Q, ev("b", "remove", a=0), Q,
+                                          inj("b", "remove-len"), Q, ev("b", "custom"), Q]))
+        # malformed connection and system events, one of each shape, with a subscribed client
+        steps = [opn("c1"), {"op": "token", "c": "c1", "tok": '"t1"', "tid": "tid1", "settle": True}, sub("c1", "a"), Q]
+        for sh in ("tok-empty", "tok-badjson", "tok-array", "tok-string", "tok-tidnum", "tok-unknownev", "sys-reset-empty", "sys-reset-badjson", "sys-reset-string",
+                   "sys-reset-nums", "sys-treset-empty", "sys-treset-badjson", "sys-treset-string", "sys-treset-nosubject", "sys-unknown"):
+            steps += [inj("a", sh), Q]
+        steps += [ev("a", "custom"), Q]
+        out.append(S(fam, "connsysshapes", steps))
     if fam == "life":
         # Stop / connection loss while a connection's worker is blocked writing to a client that has stopped reading:
         # the socket must be closed all the same, within the bounded time
